@@ -44,6 +44,7 @@ R2 = {
     "C12_6": "fields with commas inside braces in the generated policy files",
     "C15_5": "detour histories: a reload rejected while the links are being built",
     "C15_6": "detour histories: decisions asked, then the role managers swapped, then a grant and a revocation",
+    "C03_4": "a reload rejected while the links are being built, inside the enforcer probe histories",
     "C04_7": "filtered-reload stream: Enforcer + FilteredFileAdapter, a filtered load that fails (invalid filter object / file unreachable), fresh-enforcer oracle",
     "C04_8": "batch removal of a second role definition (g2) in the alphabet",
     "C04_9": "the list form of the single calls and the async twins in C04's histories",
